@@ -1,10 +1,9 @@
-/* C15: every heap block a high-level function obtained for its working state is wiped, and not
- * written again, before it is handed back to the allocator. memWipe/memFree/memAlloc = ghost
- * monitor (wipe_model.c), blob.c real with exact-size blobs, Start/Step code real, block cipher /
- * bash-f / GF(2^128) multiplication uninterpreted (their outputs are arbitrary values, the
- * multiplication stub scribbles over its stack area). Lengths concrete per instance; key, password,
- * data, iv, mac, header symbolic - so the success path AND the verification-failure path (wrong
- * mac / header / otp) of the unwrap and verify functions are inside the same query. */
+/* C09 (3): allocation failure. Every malloc may return NULL (--malloc-may-fail --malloc-fail-null,
+ * a symbolic choice per call; memAlloc/memFree = counting models, alloc_model.c). Valid arguments,
+ * concrete small lengths, kernels uninterpreted. Asserted: the result is ERR_OUTOFMEMORY exactly when
+ * an allocation failed, otherwise ERR_OK or the documented verification error; after a failed
+ * allocation the outputs are untouched; every block obtained is handed back (+ CBMC
+ * --memory-leak-check); no NULL dereference (CBMC pointer checks). All harness buffers are on the stack. */
 #include "vp.h"
 #include <bee2/core/err.h>
 #include <bee2/core/tm.h>
@@ -32,9 +31,9 @@ enum { ECB_E, ECB_D, CBC_E, CBC_D, CFB_E, CFB_D, CTR, MAC, DWP_W, DWP_U, CHE_W, 
 	HOTP_R, HOTP_V, TOTP_R, TOTP_V };
 
 #ifdef VP_CBMC
-extern unsigned vp_allocs, vp_frees, vp_wipes, vp_free_notbase, vp_free_uncovered, vp_free_dirty;
+extern unsigned vp_allocs, vp_frees, vp_alloc_failed;
 #else
-static unsigned vp_allocs = 1, vp_frees = 1, vp_wipes, vp_free_notbase, vp_free_uncovered, vp_free_dirty;
+static unsigned vp_allocs, vp_frees, vp_alloc_failed;
 #endif
 
 /* n: data length (FMT: number of symbols, PBKDF2: password length, botp: digits), m: second length
@@ -44,9 +43,11 @@ static void vp_body(struct vp_in* pin, int which, size_t n, size_t m, size_t len
 #define in (*pin)
 	octet dest[MAXN + 16];
 	octet out2[32];
+	octet pat = in.src2[31];   /* arbitrary fill value of the outputs */
 	err_t ret = ERR_OK; int verr = 0;   /* verr: the documented verification error of this function */
 	size_t i;
 	VP_ASSUME(n <= MAXN && m <= 32 && len <= 40);
+	memset(dest, pat, sizeof(dest)); memset(out2, pat, sizeof(out2));
 	switch (which)
 	{
 	case ECB_E: ret = beltECBEncr(dest, in.src, n, in.key, len); break;
@@ -74,7 +75,7 @@ static void vp_body(struct vp_in* pin, int which, size_t n, size_t m, size_t len
 	case KRP: ret = beltKRP(out2, m, in.key, len, in.level, in.hdr); break;
 	case HMAC: ret = beltHMAC(out2, in.src, n, in.key, len); break;
 	case PBKDF2: ret = beltPBKDF2(out2, in.key, len, m, in.src, n); break;
-	case BRNG_CTR: memcpy(out2, in.iv, 32); memset(dest, 0, sizeof(dest)); ret = brngCTRRand(dest, n, in.key, out2); break;
+	case BRNG_CTR: { octet iv2[32]; memcpy(iv2, in.iv, 32); ret = brngCTRRand(dest, n, in.key, iv2); } break;
 	case BRNG_HMAC: ret = brngHMACRand(dest, n, in.key, len, in.iv, m); break;
 	case BASH: ret = bashHash(dest, m * 8, in.src, n); break;   /* m * 8 = level l */
 	case HOTP_R: ret = botpHOTPRand((char*)out2, n, in.key, len, in.ctr); break;
@@ -93,11 +94,15 @@ static void vp_body(struct vp_in* pin, int which, size_t n, size_t m, size_t len
 	default: VP_ASSUME(0);
 	}
 	VP_WITNESS();
-	VP_ASSERT(ret == ERR_OK || (verr && ret == (err_t)verr), "valid arguments: ERR_OK or the documented verification error");
-	VP_ASSERT(vp_allocs >= 1, "the function obtained a heap block for its state");
-	VP_ASSERT(vp_frees == vp_allocs, "every heap block obtained was handed back");
-	VP_ASSERT(!vp_free_notbase, "memFree gets the start of a heap block");
-	VP_ASSERT(!vp_free_uncovered, "the whole heap block was covered by a memWipe before memFree");
-	VP_ASSERT(!vp_free_dirty, "no octet of the heap block was written between its wipe and memFree");
+	VP_ASSERT(ret == ERR_OK || ret == ERR_OUTOFMEMORY || (verr && ret == (err_t)verr), "valid arguments: ERR_OK, ERR_OUTOFMEMORY or the documented verification error");
+	VP_ASSERT((ret == ERR_OUTOFMEMORY) == (vp_alloc_failed != 0), "ERR_OUTOFMEMORY is returned exactly when an allocation failed");
+	VP_ASSERT(vp_frees == vp_allocs, "every heap block obtained was handed back (no allocation left behind)");
+	if (ret == ERR_OUTOFMEMORY)
+	{
+		octet d = 0;
+		for (i = 0; i < sizeof(dest); ++i) d |= dest[i] ^ pat;
+		for (i = 0; i < sizeof(out2); ++i) d |= out2[i] ^ pat;
+		VP_ASSERT(d == 0, "failed allocation: outputs untouched");
+	}
 #undef in
 }
